@@ -406,6 +406,20 @@ fn run_case(target: &str, seed: u64, len: usize) -> (String, String) {
                 run_conv!(Floor::new(a0));
             }
         }
+        "Windower::size_hint" | "Windower::next" => {
+            use dasp_signal::window::Windower;
+            let l = len + (seed % 6) as usize;
+            let data: Vec<[f64; 1]> = (0..l).map(|i| [i as f64]).collect();
+            for bin in 2..=(l + 1) {
+                for hop in 1..=(l + 1) {
+                    let w = Windower::rectangle(&data[..], bin, hop);
+                    let (lo, hi) = w.size_hint();
+                    let actual = w.count();
+                    let closed = if l >= bin { (l - bin) / hop + 1 } else { 0 };
+                    rec!((actual, lo <= actual, hi.map(|u| actual <= u).unwrap_or(true)), (closed, true, true));
+                }
+            }
+        }
         _ => {}
     }
     (got.join(" | "), want.join(" | "))
@@ -416,7 +430,7 @@ const TARGETS: &[&str] = &[
     "OffsetAmpPerChannel::next", "Map::next", "ZipMap::next", "Inspect::next", "ClipAmp::next", "Delay::next",
     "RefMut::next", "FromIterator::next", "FromInterleavedSamplesIterator::next", "UntilExhausted::next",
     "Take::next", "IntoInterleavedSamples::next_sample", "Buffered::next", "Buffered::next_frames",
-    "BranchRefA::next", "BranchRcA::next", "Converter::next", "MulHz::next", "Linear::interpolate",
+    "BranchRefA::next", "BranchRcA::next", "Converter::next", "MulHz::next", "Linear::interpolate", "Windower::size_hint",
 ];
 
 fn field<'a>(js: &'a str, k: &str) -> &'a str {
